@@ -1,0 +1,111 @@
+//! Deterministic-simulation hooks.
+//!
+//! Compiled only with `--cfg era_consensus_verif`; without that flag this module does not exist
+//! and the crate is byte-for-byte the shipped code.
+//!
+//! The hooks do not change behaviour by themselves: as long as no [`Scheduler`] is installed on
+//! the current thread, every shimmed function forwards to tokio unchanged.
+use std::{
+    cell::RefCell,
+    future::Future,
+    pin::Pin,
+    rc::Rc,
+    task::{Context, Poll, Waker},
+};
+
+pub mod tokio_shim;
+
+/// Decides which spawned task may make its next step.
+/// Installed per thread by the simulation harness.
+pub trait Scheduler {
+    /// A new task is being spawned; returns its id. Called on the spawning thread.
+    fn new_task(&self) -> u64;
+    /// Task `id` has been polled by the runtime. Returns `true` iff the task
+    /// has been granted the CPU and its inner future should be polled now.
+    /// Otherwise the scheduler keeps `waker` and wakes it once the task is granted.
+    fn poll_gate(&self, id: u64, waker: &Waker) -> bool;
+    /// Inner future of the task `id` has been polled; `done` iff it has resolved.
+    fn after_poll(&self, id: u64, done: bool);
+    /// Task `id` has been dropped (whether it completed or not).
+    fn task_dropped(&self, id: u64);
+}
+
+thread_local! {
+    static SCHEDULER: RefCell<Option<Rc<dyn Scheduler>>> = const { RefCell::new(None) };
+}
+
+/// Installs (or removes) the scheduler of the current thread.
+pub fn install_scheduler(s: Option<Rc<dyn Scheduler>>) {
+    SCHEDULER.with(|x| *x.borrow_mut() = s);
+}
+
+fn scheduler() -> Option<Rc<dyn Scheduler>> {
+    SCHEDULER.with(|x| x.borrow().clone())
+}
+
+/// Whether a scheduler is installed on this thread.
+pub fn is_simulated() -> bool {
+    SCHEDULER.with(|x| x.borrow().is_some())
+}
+
+/// Future wrapper which polls the inner future only when the installed
+/// scheduler has granted it the CPU.
+#[pin_project::pin_project(PinnedDrop)]
+pub struct Gated<F> {
+    id: Option<u64>,
+    #[pin]
+    inner: F,
+}
+
+impl<F> Gated<F> {
+    /// Wraps `inner`. The task id is allocated here, i.e. in spawn order.
+    pub fn new(inner: F) -> Self {
+        Self {
+            id: scheduler().map(|s| s.new_task()),
+            inner,
+        }
+    }
+}
+
+impl<F: Future> Future for Gated<F> {
+    type Output = F::Output;
+    fn poll(self: Pin<&mut Self>, cx: &mut Context<'_>) -> Poll<F::Output> {
+        let this = self.project();
+        let (Some(id), Some(s)) = (*this.id, scheduler()) else {
+            return this.inner.poll(cx);
+        };
+        if !s.poll_gate(id, cx.waker()) {
+            return Poll::Pending;
+        }
+        let res = this.inner.poll(cx);
+        s.after_poll(id, res.is_ready());
+        res
+    }
+}
+
+#[pin_project::pinned_drop]
+impl<F> PinnedDrop for Gated<F> {
+    fn drop(self: Pin<&mut Self>) {
+        if let (Some(id), Some(s)) = (self.id, scheduler()) {
+            s.task_dropped(id);
+        }
+    }
+}
+
+/// Explicit scheduling point: under simulation yields to the scheduler once,
+/// otherwise completes immediately.
+pub async fn sched_point() {
+    if !is_simulated() {
+        return;
+    }
+    let mut yielded = false;
+    std::future::poll_fn(|cx| {
+        if yielded {
+            return Poll::Ready(());
+        }
+        yielded = true;
+        cx.waker().wake_by_ref();
+        Poll::Pending
+    })
+    .await
+}
